@@ -86,6 +86,20 @@ def run(res: C.Result):
                       "xi": [rng.choice([0.0, 1.0, -1.0, rng.gauss(0, 1), rng.gauss(0, 3)]) for _ in range(3 * n)]})
         if cases[-1]["forced"] and all(x == 0 for x in cases[-1]["xi"]):
             cases[-1]["xi"][0] = 0.5
+        r2 = random.Random(k * 7919 + res.seed)
+        if n >= 2 and r2.random() < 0.4:
+            cases[-1]["fixed"] = sorted(r2.sample(range(n), r2.randint(1, n - 1)))     # momentum-removing constraint: fewer degrees of freedom
+            free = [i for i in range(3 * n) if i // 3 not in cases[-1]["fixed"]]
+            if cases[-1]["forced"] and all(cases[-1]["xi"][i] == 0 for i in free):
+                cases[-1]["xi"][free[0]] = 0.5
+    for k in range(nfresh // 2):
+        n = rng.choice([1, 2, 3])
+        ma = rng.choice([1, 2, 3])
+        cases.append({"mode": "ctx", "context": ["HamiltonianDisplacementContext", "HamiltonianDeformationContext", "HamiltonianExchangeContext"][k % 3],
+                      "natoms": n, "masses": [rng.choice([12.011, 39.948]) for _ in range(n)], "k": [2.0] * n,
+                      "r0": [[2.5 * i, 0.0, 0.0] for i in range(n)], "q": [[2.5 * i + 0.1, 0.05, 0.0] for i in range(n)], "p": [[0.0] * 3] * n,
+                      "T": rng.choice([100.0, 300.0, 1500.0]), "dt": rng.choice([0.5, 1.0]), "n": rng.choice([1, 3]), "calls": 4, "max_attempts": ma,
+                      "seed": rng.randint(1, 2 ** 31), "forced": rng.random() < 0.3, "vetoes": [rng.random() < 0.4 for _ in range(4 * ma)]})
     for k in range(nfresh):
         n = rng.choice([1, 2, 3])
         steps = rng.randint(2, 5)
@@ -184,10 +198,21 @@ def run(res: C.Result):
                     res.fail("mb:forced-temperature", f"forced refresh gives kinetic temperature {t_kin / kB!r} K, target {c['T']!r} K", {"input": c, "observed": r})
             else:
                 for i in range(3 * n):
+                    if i // 3 in (c.get("fixed") or []):
+                        if p[i] != 0.0:
+                            res.fail("mb:fixed-atom-momentum", f"a fixed atom was given momentum {p[i]!r}", {"input": c, "observed": r})
+                        continue
                     m = c["masses"][i // 3]
                     tol = 8 * ULP * abs(p[i]) + 1e-300
                     coq.append(f"close_case {len(meta)}%nat (mb_p {C.rlit(m)} ({C.rlit(c['T'])} * kB) {C.rlit(c['xi'][i])}) {C.rlit(p[i])} {C.rlit(tol)}.")
                     meta.append((k, "mb", i))
+        elif c["mode"] == "ctx":
+            for ci, call in enumerate(r["calls"]):
+                dist["ctx_calls"] = dist.get("ctx_calls", 0) + 1
+                distinct.add(("ctx", k, ci))
+                if call["ret"] and call["fresh"] is not None and call["last_ke"] != call["fresh"]:
+                    res.fail("fresh-ke", f"{c['context']}: after a successful Hamiltonian move the reference kinetic energy is {fx(call['last_ke'])!r} but the momenta drawn for it "
+                             f"have {fx(call['fresh'])!r}", {"input": c, "call": ci, "observed": call})
         else:  # fresh
             snaps, seen = r["snaps"], r["seen"]
             prev_snaps = prev_seen = 0
